@@ -659,3 +659,30 @@ Definition iteration_order (pick : list (str * str) -> list (str * str)) : Prop 
 (* keys of a decoded JSON object are distinct (encoding/json keeps one value per key) *)
 Definition route_keys_distinct (fs : files) : bool :=
   nodup_str (map fst (olist (rf_basic (fs_route fs)))) && nodup_str (map fst (olist (rf_adv (fs_route fs)))).
+
+(* ------------------------------------------------------------------ bal_gslb: Reload and subClusterBalance *)
+(* BalanceGslb.Reload: sub-clusters that stay keep their object (new weight), in the old order; new names are appended
+   in map iteration order [conf]; the list is sorted again; Reload recomputes single and sets avail only when single. *)
+Definition gslb_merge (old conf : list (str * Z)) : list (str * Z) :=
+  flat_map (fun e => match assoc (fst e) conf with Some w => [(fst e, w)] | None => [] end) old
+  ++ filter (fun e => negb (mem_str (fst e) (map fst old))) conf.
+Definition gslb_view (s : list (str * Z)) : list (str * Z) * Z * bool * Z :=
+  let '(av, n) := last_avail s in (s, pos_total s, n =? 1, if n =? 1 then av else -1).
+(* state after Init(conf), avail reported only when single *)
+Definition gslb_fresh (conf : list (str * Z)) : option (list (str * Z) * Z * bool * Z) :=
+  if pos_total conf =? 0 then None else Some (gslb_view (sort_by_name conf)).
+(* state after Init(a); Reload(b) *)
+Definition gslb_after_reload (a b : list (str * Z)) : option (list (str * Z) * Z * bool * Z) :=
+  if pos_total a =? 0 then None
+  else let s := sort_by_name (gslb_merge (sort_by_name a) b) in
+       if pos_total s =? 0 then None else Some (gslb_view s).
+(* subClusterBalance: h = murmur3.Sum64(key) *)
+Fixpoint gslb_walk (l : list (str * Z)) (w : Z) (cur : str) : str :=
+  match l with
+  | [] => cur
+  | (n, wt) :: r => if wt <=? 0 then gslb_walk r w n
+                    else if w - wt <? 0 then n else gslb_walk r (w - wt) n
+  end.
+Definition gslb_pick (st : list (str * Z) * Z * bool * Z) (h : Z) : str :=
+  let '(s, total, single, av) := st in
+  if single then fst (nth (Z.to_nat av) s ([], 0)) else gslb_walk s (h mod total) [].
